@@ -10,7 +10,8 @@ import t_vocab as T2
 
 PID = "C11"
 THEOREMS = ["lex_total", "string_decode", "decode_spec", "positions_exact", "longest_operator", "pairs_exhaustive",
-            "layout_irrelevant", "relayout"]
+            "layout_irrelevant", "relayout", "tokens_tile_the_source", "comment_is_a_token", "comment_after_keyword_kept",
+            "filtered_stream_independent_of_keyword_lookahead"]
 MULTI = ["==", "=>", ">=", "<=", "..", "::", "&&", "||", "%%", "!=", "!~"]
 SAMPLES = ["x", "foo-bar", "a1", "index", "lets", "1", "42", '"s"', '""', '"a b"', "true", "false", "NULL"]
 
